@@ -85,8 +85,21 @@ nni_pollable_getfd(nni_pollable *p, int *fdp)
 		fds = FD_JOIN(wfd, rfd);
 
 		if (nni_atomic_cas64(&p->p_fds, (uint64_t) -1, fds)) {
-			if (nni_atomic_get_bool(&p->p_raised)) {
-				nni_plat_pipe_raise(wfd);
+			// Bring the descriptor to the level of p_raised.  A
+			// concurrent raise or clear may have swapped p_raised
+			// before it could see the descriptor (or between our
+			// read of p_raised and our write), so repeat until
+			// the flag is the one we acted on.
+			for (;;) {
+				bool raised = nni_atomic_get_bool(&p->p_raised);
+				if (raised) {
+					nni_plat_pipe_raise(wfd);
+				} else {
+					nni_plat_pipe_clear(rfd);
+				}
+				if (nni_atomic_get_bool(&p->p_raised) == raised) {
+					break;
+				}
 			}
 			*fdp = rfd;
 			return (NNG_OK);
